@@ -175,7 +175,19 @@ class MangleFile(Base):
 
     # K29 (recorded, not repaired): a source name that is legal with an EMPTY extension ('FOO.') is not returned unchanged -
     # the trailing dot is treated as part of the base name and mangled ('FOO_', ';1').  The result is still legal.
-    known = {'/post:legal-input-unchanged': [('K29', lambda a: cp(a.s)[-1] == 46, "mangle_file_for_iso9660('NAME.') returns ('NAME_', ';1') instead of ('NAME', ';1'): a legal name with an empty extension is not left unchanged")]}
+    # K53 (recorded, not repaired): at levels 2 and 3 an extension may be as long as the 30 characters allow, but an extension of
+    # more than three characters is folded into the base name ('INDEX.HTML' -> 'INDEX_HTML', ';1').  Same family as K29.
+    @staticmethod
+    def _long_ext(a):
+        x = cp(a.s)
+        n = len(x)
+        # the last dot is followed by four or more characters
+        return Or(*[And(x[i] == 46, *[x[j] != 46 for j in range(i + 1, n)]) for i in range(0, n - 4)]) if n >= 5 else False
+
+    known = {'/post:legal-input-unchanged': [
+        ('K29', lambda a: cp(a.s)[-1] == 46, "mangle_file_for_iso9660('NAME.') returns ('NAME_', ';1') instead of ('NAME', ';1'): a legal name with an empty extension is not left unchanged"),
+        ('K53', lambda a: MangleFile._long_ext(a), "mangle_file_for_iso9660('INDEX.HTML', 2 or 3) returns ('INDEX_HTML', ';1'): an extension longer than three characters, legal at levels 2-3, is folded into the name"),
+    ]}
 
 
 @contract
